@@ -36,7 +36,7 @@ let run_wops (wr : wst -> bytes -> wst * wres) (cl : wst -> wst * bool) (st0 : w
   (List.rev !out, !st)
 
 (* Read histories: listed sizes until the first terminal, then Read(drain)
-   until one (at most 5000 calls), then two more calls *)
+   until one (at most 20000 calls), then two more calls *)
 let run_reads (rd : 'a -> nat -> 'a * rres) (st0 : 'a) (sizes : int list) (drain : int) : string list =
   let st = ref st0 and out = ref [] and term = ref false and panicked = ref false in
   let one n =
@@ -50,7 +50,7 @@ let run_reads (rd : 'a -> nat -> 'a * rres) (st0 : 'a) (sizes : int list) (drain
   (try
     List.iter (fun n -> if not !term && not !panicked then one n) sizes;
     let i = ref 0 in
-    while not !term && not !panicked && !i < 5000 do one drain; incr i done;
+    while not !term && not !panicked && !i < 20000 do one drain; incr i done;
     if !term && not !panicked then begin
       (* two calls after the terminal: only the bytes handed out are observed *)
       let post () =
